@@ -404,7 +404,7 @@ REGISTRY = {
                         "file listings (ids, logical sizes, merge directory presence) after every merge, close and open are compared between model and implementation; batch ids non-zero; file-system calls do not fail"],
     },
     "C18": {
-        "corr": lambda tier, seed: corr_engine("C18", tier, seed, "mergeheavy,batches,bigvals", 100, 2500, ops=30,
+        "corr": lambda tier, seed: corr_engine("C18", tier, seed, "mergeheavy,racingmerge,batches,bigvals", 100, 2500, ops=30,
                                                dflags="-noevents -skip stat", oracle_props=["C18", "C06", "C02", "C01"]),
         "assumptions": ["after every successful merge the harness decodes the hint file and the rewritten files with the package's own readers and compares them entry by entry (implementation-side oracle), and the digest of the hint entries with the model's hint file; positions and sizes of all keys are compared with the model after the adopting Open (hint path) and after the next Open (scan path)",
                         "hint records are framed and CRC-protected like data records (C11); the varint encoding of a hint record is compared through the byte counts of the hint-file writes and the decoded entries"],
